@@ -90,6 +90,9 @@ class TemperatureUnitType(UnitType):
     def _convert_degR_Cel(self, value):
         return (value*9/5-491.67)*5/9
         
+    def _convert_Cel_Cel(self, value):
+        return value
+        
     def _convert_Cel_K(self, value):
         return value+273.15
         
@@ -98,6 +101,9 @@ class TemperatureUnitType(UnitType):
         
     def _convert_Cel_degR(self, value):
         return ((value*9/5)+491.67)*5/9
+        
+    def _convert_degF_degF(self, value):
+        return value
         
     def _convert_degF_K(self, value):
         return ((value-32)*5/9)+273.15
